@@ -308,6 +308,11 @@ def digest(cls, p):
     try:
         with time_limit(LIMIT * 15):
             parts.append(repr(p))
+            if cls != "ma":
+                # what each action-cost metric says about the problem's own actions
+                for m in p.quality_metrics:
+                    if m.is_minimize_action_costs():
+                        parts.append(";".join("%s=%s" % (a.name, m.get_action_cost(a)) for a in p.actions))
     except ImplTimeout:
         parts.append("repr:TIMEOUT")
     except Exception as ex:
@@ -687,6 +692,15 @@ def worker(job):
 
     warnings.simplefilter("ignore")
     r = replay_job(job)
+    if "TIMEOUT" in json.dumps(r):
+        # a busy machine, or a call that really does not return: the whole history is replayed once more
+        # with ten times the limits before a time-out is recorded as an observation
+        global LIMIT
+        old, LIMIT = LIMIT, LIMIT * 10
+        try:
+            r = replay_job(job)
+        finally:
+            LIMIT = old
     r["job"] = job
     return r
 
